@@ -1,3 +1,213 @@
 import GnpyModel
-/- Property theorems for C05 (only the property theorems and their non-vacuity examples live here;
-   helper lemmas go to GnpyProofs/Lemmas). -/
+import GnpyProofs.Lemmas.Fiber
+/- Property theorems for C05 — fibre spans apply exactly their loss budget and accumulate CD, PMD, PDL, latency.
+   Model: GnpyModel/Fiber.lean (+ Gn.lean for the loss coefficient).  All statements over ℝ. -/
+namespace Gnpy.Fiber
+open Gnpy.Gn
+
+/-! ### the loss budget (Raman off) -/
+
+/-- `exp(−α L)` with `α = loss / (10 log10 e)` is exactly `loss · L` dB of attenuation -/
+theorem exp_alpha_is_db (c len : ℝ) : Real.exp (-(alphaOfLoss c * len)) = db2lin (-(c * len)) := by
+  rw [alphaOfLoss_eq, db2lin_eq]; congr 1; ring
+
+/-- **each lumped loss multiplies exactly once** (no-Raman profile): when the lumped losses sit at pairwise distinct
+positions strictly inside the fibre, the attenuation at the fibre end is `exp(−αL) · Π lumped` -/
+theorem lumped_once (alpha len : ℝ) (lumped : List (ℝ × ℝ)) (hlen : 0 < len)
+    (hpos : ∀ x ∈ lumped, 0 < x.1 ∧ x.1 < len) (hd : (lumped.map (·.1)).Nodup) :
+    fibreLossLin alpha len lumped = Real.exp (-(alpha * len)) * prodL (lumped.map (·.2)) := by
+  simp only [fibreLossLin, createLumped, transc_exp]
+  congr 1
+  rw [foldl_insert_prod]
+  · simp [prodL_append, prodL]
+  · simp only [List.map_append, List.map_cons, List.map_nil, Nat.cast_zero]
+    rw [List.nodup_append]
+    refine ⟨hd, ?_, ?_⟩
+    · simp only [List.nodup_cons, List.mem_cons, List.not_mem_nil, or_false, not_false_eq_true, List.nodup_nil,
+        and_true]
+      exact ne_of_lt hlen
+    · intro a ha b hb
+      simp only [List.mem_map] at ha
+      obtain ⟨x, hx, rfl⟩ := ha
+      have := hpos x hx
+      simp only [List.mem_cons, List.not_mem_nil, or_false] at hb
+      rcases hb with rfl | rfl
+      · exact ne_of_gt this.1
+      · exact ne_of_lt this.2
+  · intro p _; simp
+
+/-- the whole of `Fiber.propagate` (Raman off) on one channel is one multiplication by `db2lin(−budget)` -/
+theorem propagateP_eq (p conIn attIn c len conOut : ℝ) (lumpedKm : List (ℝ × ℝ)) (hlen : 0 < len)
+    (hok : lumpedPositionsOk len lumpedKm = true) (hd : (lumpedKm.map (·.1)).Nodup) :
+    propagateP p conIn attIn (alphaOfLoss c) len (mkLumped lumpedKm) conOut
+      = p * db2lin (-(attIn + conIn + c * len + sumL (lumpedKm.map (·.2)) + conOut)) := by
+  have hpos : ∀ x ∈ mkLumped lumpedKm, 0 < x.1 ∧ x.1 < len := by
+    intro x hx
+    simp only [mkLumped, List.mem_map] at hx
+    obtain ⟨y, hy, rfl⟩ := hx
+    simp only [lumpedPositionsOk, List.all_eq_true, Bool.and_eq_true, decide_eq_true_eq, Nat.cast_zero,
+      Nat.cast_one, Nat.cast_ofNat] at hok
+    have := hok y hy
+    constructor
+    · simp only [Nat.cast_ofNat]; nlinarith [this.1]
+    · simp only [Nat.cast_ofNat]; nlinarith [this.2]
+  have hnd : ((mkLumped lumpedKm).map (·.1)).Nodup := by
+    simp only [mkLumped, List.map_map]
+    have : ((fun x : ℝ × ℝ => x.1) ∘ fun x : ℝ × ℝ => (x.1 * ((1000:Nat):ℝ), lumpedLin x.2))
+        = (fun z : ℝ => z * 1000) ∘ (fun x : ℝ × ℝ => x.1) := by
+      funext x; simp
+    rw [this, ← List.map_map]
+    apply List.Nodup.map _ hd
+    intro a b h
+    simp only at h
+    linarith
+  have hprod : prodL ((mkLumped lumpedKm).map (·.2)) = db2lin (-(sumL (lumpedKm.map (·.2)))) := by
+    rw [← prod_lumpedLin]
+    simp [mkLumped, List.map_map, Function.comp_def]
+  simp only [propagateP, applyAttDb, Nat.cast_one]
+  rw [lumped_once _ _ _ hlen hpos hnd, exp_alpha_is_db, hprod, one_div, one_div, ← db2lin_neg, ← db2lin_neg]
+  rw [mul_assoc, mul_assoc, ← db2lin_add, ← db2lin_add, ← db2lin_add]
+  congr 2; ring
+
+/-- **loss budget**: with Raman off every channel is attenuated, in dB, by exactly
+`padding + input connector + length × loss coefficient + Σ lumped losses + output connector` -/
+theorem loss_budget (p conIn attIn c len conOut : ℝ) (lumpedKm : List (ℝ × ℝ)) (hp : 0 < p) (hlen : 0 < len)
+    (hok : lumpedPositionsOk len lumpedKm = true) (hd : (lumpedKm.map (·.1)).Nodup) :
+    lin2db (p / propagateP p conIn attIn (alphaOfLoss c) len (mkLumped lumpedKm) conOut)
+      = attIn + conIn + c * len + sumL (lumpedKm.map (·.2)) + conOut := by
+  rw [propagateP_eq p conIn attIn c len conOut lumpedKm hlen hok hd]
+  have h := db2lin_pos (-(attIn + conIn + c * len + sumL (lumpedKm.map (·.2)) + conOut))
+  rw [show p / (p * db2lin (-(attIn + conIn + c * len + sumL (lumpedKm.map (·.2)) + conOut)))
+      = (db2lin (-(attIn + conIn + c * len + sumL (lumpedKm.map (·.2)) + conOut)))⁻¹ by field_simp]
+  rw [← db2lin_neg, neg_neg, lin2db_db2lin]
+
+/-- the same on the span record: the loss coefficient is the one of the channel's own frequency
+(scalar or interpolated per frequency) -/
+theorem span_loss_budget (s : Span ℝ) (lumpedKm : List (ℝ × ℝ)) (f p c : ℝ) (hl : s.lumped = mkLumped lumpedKm)
+    (hc : lossCoef s.fib f = some c) (hp : 0 < p) (hlen : 0 < s.fib.len)
+    (hok : lumpedPositionsOk s.fib.len lumpedKm = true) (hd : (lumpedKm.map (·.1)).Nodup) :
+    ∃ pout, spanOut s f p = some pout ∧
+      lin2db (p / pout) = s.attIn + s.conIn + c * s.fib.len + sumL (lumpedKm.map (·.2)) + s.conOut := by
+  refine ⟨propagateP p s.conIn s.attIn (alphaOfLoss c) s.fib.len s.lumped s.conOut, ?_, ?_⟩
+  · simp [spanOut, alphaAt, hc]
+  · rw [hl]; exact loss_budget p s.conIn s.attIn c s.fib.len s.conOut lumpedKm hp hlen hok hd
+
+/-- CURRENT CODE: of two lumped losses at the same position only the first is applied
+(`numpy.unique` in `RamanSolver._create_lumped_losses` keeps one entry per position) -/
+theorem same_position_dropped (alpha len z a b : ℝ) (h0 : 0 < z) (h1 : z < len) :
+    fibreLossLin alpha len [(z, a), (z, b)] = Real.exp (-(alpha * len)) * a := by
+  have hlen : 0 < len := lt_trans h0 h1
+  have n1 : ¬ len < 0 := not_lt.2 (le_of_lt hlen)
+  have n2 : ¬ len < z := not_lt.2 (le_of_lt h1)
+  simp [fibreLossLin, createLumped, insertPoint, prodL, h0, h1, hlen, n1, n2]
+
+/-- hence the loss budget is NOT met by the current code for such a fibre (witness: 1 dB-like factors 1/2 and 1/2
+at the same place: the fibre end sees 1/2 instead of 1/4) -/
+theorem lumped_same_position_fails_current :
+    ∃ (alpha len : ℝ) (lumped : List (ℝ × ℝ)), 0 < len ∧ (∀ x ∈ lumped, 0 < x.1 ∧ x.1 < len) ∧
+      fibreLossLin alpha len lumped ≠ Real.exp (-(alpha * len)) * prodL (lumped.map (·.2)) := by
+  refine ⟨0, 2, [(1, 1 / 2), (1, 1 / 2)], by norm_num, ?_, ?_⟩
+  · intro x hx; simp at hx; rcases hx with rfl | rfl <;> norm_num
+  · rw [same_position_dropped 0 2 1 (1 / 2) (1 / 2) (by norm_num) (by norm_num)]
+    simp [prodL]
+
+/-! ### accumulation of CD, latency (linear) and PMD, PDL (quadrature) over a path -/
+
+theorem accPath_cons (a : Acc ℝ) (c : Contribution ℝ) (cs : List (Contribution ℝ)) :
+    accPath a (c :: cs) = accPath (accStep a c) cs := rfl
+
+/-- **chromatic dispersion adds linearly over the elements of a path** -/
+theorem cd_additive (a : Acc ℝ) (cs : List (Contribution ℝ)) :
+    (accPath a cs).cd = a.cd + (cs.map (·.cd)).sum := by
+  induction cs generalizing a with
+  | nil => simp [accPath]
+  | cons c rest ih => rw [accPath_cons, ih]; simp [accStep]; ring
+
+/-- **latency adds linearly over the elements of a path** -/
+theorem latency_additive (a : Acc ℝ) (cs : List (Contribution ℝ)) :
+    (accPath a cs).latency = a.latency + (cs.map (·.latency)).sum := by
+  induction cs generalizing a with
+  | nil => simp [accPath]
+  | cons c rest ih => rw [accPath_cons, ih]; simp [accStep]; ring
+
+theorem accPath_pmd_fold (a : Acc ℝ) (cs : List (Contribution ℝ)) :
+    (accPath a cs).pmd = (cs.map (·.pmd)).foldl quadStep a.pmd := by
+  induction cs generalizing a with
+  | nil => simp [accPath]
+  | cons c rest ih => rw [accPath_cons, ih]; simp [accStep]
+
+theorem accPath_pdl_fold (a : Acc ℝ) (cs : List (Contribution ℝ)) :
+    (accPath a cs).pdl = (cs.map (·.pdl)).foldl quadStep a.pdl := by
+  induction cs generalizing a with
+  | nil => simp [accPath]
+  | cons c rest ih => rw [accPath_cons, ih]; simp [accStep]
+
+/-- the repeated update `x ← sqrt(x² + b²)` is the root of the sum of squares -/
+theorem quadrature_fold (x0 : ℝ) (bs : List ℝ) (h : 0 ≤ x0) :
+    bs.foldl quadStep x0 = Real.sqrt (x0 ^ 2 + (bs.map (fun b => b ^ 2)).sum) := foldl_quad bs x0 h
+
+/-- … hence independent of the order of the contributions -/
+theorem quadrature_perm (x0 : ℝ) (bs bs' : List ℝ) (h : 0 ≤ x0) (hp : bs.Perm bs') :
+    bs.foldl quadStep x0 = bs'.foldl quadStep x0 := by
+  rw [quadrature_fold x0 bs h, quadrature_fold x0 bs' h, (hp.map _).sum_eq]
+
+/-- **PMD adds in quadrature over fibres, ROADMs and amplifiers together** -/
+theorem pmd_quadrature (a : Acc ℝ) (cs : List (Contribution ℝ)) (h : 0 ≤ a.pmd) :
+    (accPath a cs).pmd = Real.sqrt (a.pmd ^ 2 + (cs.map (fun c => c.pmd ^ 2)).sum) := by
+  rw [accPath_pmd_fold, quadrature_fold _ _ h, List.map_map]; rfl
+
+/-- **PDL adds in quadrature over ROADMs and amplifiers** (a fibre contributes 0) -/
+theorem pdl_quadrature (a : Acc ℝ) (cs : List (Contribution ℝ)) (h : 0 ≤ a.pdl) :
+    (accPath a cs).pdl = Real.sqrt (a.pdl ^ 2 + (cs.map (fun c => c.pdl ^ 2)).sum) := by
+  rw [accPath_pdl_fold, quadrature_fold _ _ h, List.map_map]; rfl
+
+/-- **the accumulated CD, PMD, PDL and latency do not depend on the order of the spans, ROADMs and amplifiers** -/
+theorem path_order_irrelevant (a : Acc ℝ) (cs cs' : List (Contribution ℝ)) (hp : cs.Perm cs')
+    (h1 : 0 ≤ a.pmd) (h2 : 0 ≤ a.pdl) : accPath a cs = accPath a cs' := by
+  have e1 : (accPath a cs).cd = (accPath a cs').cd := by
+    rw [cd_additive, cd_additive, (hp.map _).sum_eq]
+  have e2 : (accPath a cs).latency = (accPath a cs').latency := by
+    rw [latency_additive, latency_additive, (hp.map _).sum_eq]
+  have e3 : (accPath a cs).pmd = (accPath a cs').pmd := by
+    rw [pmd_quadrature _ _ h1, pmd_quadrature _ _ h1, (hp.map _).sum_eq]
+  have e4 : (accPath a cs).pdl = (accPath a cs').pdl := by
+    rw [pdl_quadrature _ _ h2, pdl_quadrature _ _ h2, (hp.map _).sum_eq]
+  cases hA : accPath a cs; cases hB : accPath a cs'
+  simp only [hA, hB] at e1 e2 e3 e4
+  simp [e1, e2, e3, e4]
+
+/-! ### what one fibre contributes -/
+
+/-- a fibre's PMD contribution squared is `pmd_coef² · length` -/
+theorem fibre_pmd_sq (k len : ℝ) (h : 0 ≤ len) : fibrePmd k len ^ 2 = k ^ 2 * len := by
+  simp only [fibrePmd, transc_sqrt]
+  rw [mul_pow, Real.sq_sqrt h]
+
+/-- a fibre leaves the PDL as it is -/
+theorem fibre_pdl_unchanged (x : ℝ) (h : 0 ≤ x) : quadStep x ((0:Nat):ℝ) = x := by
+  simp only [quadStep, transc_sqrt, Nat.cast_zero, mul_zero, add_zero]
+  exact Real.sqrt_mul_self h
+
+/-- latency of a span: `length · n₁ / c` -/
+theorem latency_formula (len : ℝ) : latency len = len * n1 / cLight := by
+  have hc : (cLight : ℝ) ≠ 0 := by simp only [cLight, Nat.cast_ofNat]; norm_num
+  have hn : (n1 : ℝ) ≠ 0 := by simp only [n1, Nat.cast_ofNat]; norm_num
+  simp only [latency]; field_simp
+
+/-- at the reference frequency the span adds exactly `D · length` of chromatic dispersion -/
+theorem cd_at_ref (d b3 fr len : ℝ) (hf : 0 < fr) :
+    chromaticDispersion (beta2OfDisp fr d) b3 fr fr len = d * len := by
+  have hpi := Real.pi_pos
+  simp only [chromaticDispersion, beta2OfDisp, cLight, haspi_real, Nat.cast_ofNat]
+  field_simp
+  ring
+
+/-! ### non-vacuity -/
+example : lumpedPositionsOk (80000:ℝ) [((20:ℝ), (1:ℝ)), (30, 2)] = true := by
+  simp [lumpedPositionsOk]; norm_num
+example : ([((20:ℝ), (1:ℝ)), (30, 2)].map (·.1)).Nodup := by simp
+example : (0:ℝ) ≤ ({ cd := 0, pmd := 0, pdl := 0, latency := 0 } : Acc ℝ).pmd := le_refl _
+example : [lumpedContribution (1:ℝ) 2, fibreContribution 1 0 1 1 1 1].Perm
+    [fibreContribution 1 0 1 1 1 1, lumpedContribution (1:ℝ) 2] := List.Perm.swap _ _ _
+
+end Gnpy.Fiber
